@@ -13,10 +13,11 @@ CONSTANTS
   INames = {"i1", "i2"}
   SNames = {"d1"}
   Alpha <- AlphaQ
-  ParamSites = {"clients", "it"}
+  ParamSites = {"clients", "it", "ibody", "tbody"}
   XUses <- XUsesQ
   XParams = {"x1"}
   XVals <- XValsQ
+  TplKinds = {"composable", "component", "templates"}
   NumParams = {"p1"}
   StrParams = {"q1"}
   SupVals = {0, 2}
